@@ -5,6 +5,8 @@
 // publishes, consumer reads and cancellations:
 //
 //	get <k>*        AsyncGetBlocks(ctx, sessctx, keys…) on a fresh pub/sub (keys may repeat, may be empty)
+//	zget <k>* / <h>*   the same with a zero-latency peer: the `want` callback synchronously publishes blocks h…
+//	                (held by a connected node) from inside want(); the model subscribes first, then wants
 //	pub <c>         notif.Publish of block c (requested or not, any number of times)
 //	read            consumer receives from the output channel          -> blk <c> | closed | none
 //	cancel          cancel the request context, wait for cancelWants   -> cw [<remaining>] | cw-racy
@@ -28,6 +30,7 @@ import (
 	"sync"
 	"time"
 
+	"github.com/ipfs/boxo/bitswap"
 	"github.com/ipfs/boxo/bitswap/client/verifgetter"
 	testsession "github.com/ipfs/boxo/bitswap/testinstance"
 	tn "github.com/ipfs/boxo/bitswap/testnet"
@@ -63,6 +66,18 @@ func gen(r *vh.Rand, tier string, n int, emit func(vh.Case)) {
 	}
 }
 
+func shuffledInts(r *vh.Rand, n int) []int {
+	p := make([]int, n)
+	for i := range p {
+		p[i] = i
+	}
+	for i := n - 1; i > 0; i-- {
+		j := r.Intn(i + 1)
+		p[i], p[j] = p[j], p[i]
+	}
+	return p
+}
+
 func genCore(r *vh.Rand, id string) vh.Case {
 	c := vh.Case{ID: id}
 	nk := r.Range(1, 5)
@@ -80,9 +95,24 @@ func genCore(r *vh.Rand, id string) vh.Case {
 		ks[i] = strconv.Itoa(k)
 		want[k] = true
 	}
-	c.Ops = append(c.Ops, strings.TrimSpace("get "+strings.Join(ks, " ")))
 	pending := 0 // matched publishes not yet read
 	published := map[int]bool{}
+	if r.Chance(1, 4) && nk > 0 {
+		// a connected node answers from inside want(): every key it holds must be delivered
+		var hs []string
+		for _, k := range shuffledInts(r, pool+1) {
+			if r.Chance(1, 2) {
+				hs = append(hs, strconv.Itoa(k))
+				if want[k] && !published[k] {
+					published[k] = true
+					pending++
+				}
+			}
+		}
+		c.Ops = append(c.Ops, strings.TrimSpace("zget "+strings.Join(ks, " ")+" / "+strings.Join(hs, " ")))
+	} else {
+		c.Ops = append(c.Ops, strings.TrimSpace("get "+strings.Join(ks, " ")))
+	}
 	delivered := 0
 	cancelled := false
 	happy := r.Chance(1, 4)
@@ -251,7 +281,24 @@ func execCore(g *core, f []string, o *vh.Out) string {
 		return "dead"
 	}
 	switch f[0] {
-	case "get":
+	case "get", "zget":
+		var held []int
+		if f[0] == "zget" {
+			sep := -1
+			for i, t := range f {
+				if t == "/" {
+					sep = i
+				}
+			}
+			if sep < 0 {
+				return "bad-op"
+			}
+			for _, t := range f[sep+1:] {
+				held = append(held, vh.Atoi(t))
+			}
+			f = f[:sep]
+			o.Kind("zero-latency-peer")
+		}
 		g.stop()
 		*g = core{o: o, keys: map[cid.Cid]int{}, idx: map[cid.Cid]int{}, published: map[int]bool{}, delivered: map[int]bool{}, cwCh: make(chan []cid.Cid, 4)}
 		for i := 0; i < 16; i++ {
@@ -273,7 +320,18 @@ func execCore(g *core, f []string, o *vh.Out) string {
 		sctx, scancel := context.WithCancel(context.Background())
 		g.cancel, g.sessCancel = cancel, scancel
 		out, err := verifgetter.AsyncGetBlocks(ctx, sctx, keys, g.notif,
-			func(context.Context, []cid.Cid) { g.wantCalls++ },
+			func(context.Context, []cid.Cid) {
+				g.wantCalls++
+				// zero-latency peer: the blocks it holds arrive while want() is still running
+				for _, i := range held {
+					b := blk(i)
+					if _, req := g.keys[b.Cid()]; req && !g.published[i] {
+						g.published[i] = true
+						g.pending = append(g.pending, i)
+					}
+					g.notif.Publish("", b)
+				}
+			},
 			func(ks []cid.Cid) {
 				g.mu.Lock()
 				g.cwCalls++
@@ -344,7 +402,7 @@ func execCore(g *core, f []string, o *vh.Out) string {
 			return fmt.Sprintf("blk %d", i)
 		case <-time.After(wait):
 			if wait > time.Second {
-				o.Fail("read-timeout", "nothing arrived within %s (pending %v)", wait, g.pending)
+				o.Fail("read-timeout", "nothing arrived within %s although blocks %v were published for requested keys (a connected node sent them)", wait, g.pending)
 			}
 			return "none"
 		}
@@ -551,6 +609,105 @@ func netScenario(seed, nodes, nblocks, latMs int) (fails []string, kinds []strin
 	return fails, kinds
 }
 
+// leakScenario: a session that OUTLIVES its request. The request asks for a CID nobody holds (a live want),
+// is cancelled, and the requester's want-list is then watched across several idle ticks / periodic searches of the
+// session (short ProviderSearchDelay and RebroadcastDelay through the public options) and after the session is
+// closed: a cancelled CID must never come back.
+func leakScenario(seed, latMs int, withHeld bool) (fails []string) {
+	const searchDelay = 100 * time.Millisecond
+	net := tn.VirtualNetwork(delay.Fixed(time.Duration(latMs) * time.Millisecond))
+	ig := testsession.NewTestInstanceGenerator(net, mockrouting.NewServer(), nil, []bitswap.Option{
+		bitswap.ProviderSearchDelay(searchDelay), bitswap.RebroadcastDelay(300 * time.Millisecond)})
+	defer ig.Close()
+	insts := ig.Instances(3)
+	defer func() {
+		for _, in := range insts {
+			in.Exchange.Close()
+		}
+	}()
+	me := insts[0]
+	held := blocks.NewBlock([]byte(fmt.Sprintf("leak-held-%d", seed)))
+	missing := blocks.NewBlock([]byte(fmt.Sprintf("leak-missing-%d", seed)))
+	if err := insts[1].Blockstore.Put(context.Background(), held); err != nil {
+		panic(err)
+	}
+	sessCtx, closeSession := context.WithCancel(context.Background())
+	defer closeSession()
+	sess := me.Exchange.NewSession(sessCtx)
+	reqCtx, cancelReq := context.WithCancel(context.Background())
+	defer cancelReq()
+	keys := []cid.Cid{missing.Cid()}
+	if withHeld {
+		keys = []cid.Cid{held.Cid(), missing.Cid(), held.Cid()}
+	}
+	onList := func() []cid.Cid {
+		var found []cid.Cid
+		for _, w := range me.Exchange.GetWantlist() {
+			for _, k := range keys {
+				if w.Equals(k) {
+					found = append(found, k)
+				}
+			}
+		}
+		return found
+	}
+	ch, err := sess.GetBlocks(reqCtx, keys)
+	if err != nil {
+		return []string{"net-getblocks-error: " + err.Error()}
+	}
+	if withHeld {
+		select {
+		case b, ok := <-ch:
+			if !ok || !b.Cid().Equals(held.Cid()) {
+				return []string{"net-not-delivered: long-lived session did not deliver the held block first"}
+			}
+		case <-time.After(8 * time.Second):
+			return []string{"net-not-delivered: long-lived session, held block not delivered after 8s"}
+		}
+	}
+	for i := 0; len(onList()) == 0; i++ { // the missing key becomes a live want
+		if i > 300 {
+			return []string{"net-want-never-listed: the requested CID nobody holds never reached the want-list"}
+		}
+		time.Sleep(10 * time.Millisecond)
+	}
+	cancelReq()
+	closed := false
+	for !closed {
+		select {
+		case b, ok := <-ch:
+			if !ok {
+				closed = true
+			} else {
+				fails = append(fails, "net-delivery-after-cancel: "+b.Cid().String())
+			}
+		case <-time.After(5 * time.Second):
+			return append(fails, "net-closed-late: output channel not closed 5s after the cancel")
+		}
+	}
+	for i := 0; len(onList()) != 0; i++ {
+		if i > 200 {
+			return append(fails, "net-wantlist-not-cleaned: cancelled CIDs still wanted 2s after the cancel (long-lived session)")
+		}
+		time.Sleep(10 * time.Millisecond)
+	}
+	watch := 650 * time.Millisecond // >= 3 idle ticks (100, +200, +300 ms) and 2 periodic searches
+	if withHeld {
+		watch = 1300 * time.Millisecond // the idle tick is 500 ms + 3 x latency once a block was received
+	}
+	for end := time.Now().Add(watch); time.Now().Before(end); time.Sleep(10 * time.Millisecond) {
+		if l := onList(); len(l) != 0 {
+			return append(fails, fmt.Sprintf("net-cancelled-cid-back-on-wantlist: %d cancelled CID(s) reappeared on GetWantlist() while the session lives on", len(l)))
+		}
+	}
+	closeSession()
+	time.Sleep(150 * time.Millisecond)
+	if l := onList(); len(l) != 0 {
+		fails = append(fails, fmt.Sprintf("net-wantlist-after-session-close: %d cancelled CID(s) on GetWantlist() after the session was closed", len(l)))
+	}
+	return fails
+}
+
 func execNet(f []string, o *vh.Out) string {
 	if len(f) != 5 {
 		return "bad-op"
@@ -563,6 +720,10 @@ func execNet(f []string, o *vh.Out) string {
 	var last []string
 	for attempt := 0; attempt < 3; attempt++ {
 		fails, kinds := netScenario(seed, nodes, nb, lat)
+		if seed%2 == 0 {
+			fails = append(fails, leakScenario(seed, lat, seed%4 == 0)...)
+			kinds = append(kinds, "net-long-lived-session")
+		}
 		for _, k := range kinds {
 			o.Kind(k)
 		}
